@@ -38,6 +38,7 @@ type Loaded struct {
 	LoadWall   time.Duration
 	NumFuncs   int
 	tcache     sync.Map
+	hcache     sync.Map
 }
 
 func Load(o LoadOptions) (*Loaded, error) {
@@ -109,6 +110,30 @@ func Load(o LoadOptions) (*Loaded, error) {
 	}
 	ld.LoadWall = time.Since(t0)
 	return ld, nil
+}
+
+// isHarnessFn reports whether fn is defined in a harness overlay file (zz_vf*).
+func (ld *Loaded) isHarnessFn(fn *ssa.Function) bool {
+	if v, ok := ld.hcache.Load(fn); ok {
+		return v.(bool)
+	}
+	f := fn
+	for f.Parent() != nil {
+		f = f.Parent()
+	}
+	pos := f.Pos()
+	if pos == token.NoPos && f.Synthetic != "" {
+		// wrappers/bound methods: look at the underlying object
+		if o := f.Object(); o != nil {
+			pos = o.Pos()
+		}
+	}
+	r := false
+	if pos != token.NoPos {
+		r = strings.HasPrefix(filepath.Base(ld.Fset.Position(pos).Filename), "zz_vf")
+	}
+	ld.hcache.Store(fn, r)
+	return r
 }
 
 // namedType returns the types.Type of pkgpath.name.
